@@ -199,6 +199,10 @@ class KwPack:
         self.known = dict(known or {})
 
 
+STD_MODULES = ('queue', 'threading', 'time', 'asyncio', 'concurrent', 'multiprocessing', 'os', 'sys', 'logging', 'traceback', 'random',
+               'itertools', 'functools', 'errno', 'inspect', 'contextlib', 'pickle', 'util')
+
+
 class StarPack:
     """An opaque *args pack passed through unchanged (boxed as one value)."""
 
@@ -427,6 +431,8 @@ class Exec:
             return ExcClass(cn)
         if name in ('int', 'str', 'float', 'bool', 'list', 'tuple', 'dict', 'bytes', 'object'):
             return TypeName(name)
+        if name in STD_MODULES:
+            return Module(name)
         raise Unsupported(f'name `{name}`')
 
     def ev_Name(self, e, st):
